@@ -65,6 +65,10 @@ def handle : List String → String
       let o := sessionDownloadOutcome (logged log) a enc ps
       encRes (o.observed _ a.keepFile) ++ " " ++ encBool a.raw ++ " " ++ encRem (remaining log o.final)
     | _, _, _, _ => "bad-arg"
+  | ["lenpieces", n, reads] =>
+    match n.toNat?, decLists? reads with
+    | some n, some rs => encLists (lengthPieces n rs)
+    | _, _ => "bad-arg"
   | ["gzipw", pieces, log] =>
     match decLists? pieces, decLog? log with
     | some ps, some log => encRes (gzipRunFrom (logged log) (GzipSt.new _) ps)
